@@ -1,5 +1,6 @@
 import GeoVerif.Lemmas.C04
 import GeoVerif.Lemmas.Irr
+import GeoVerif.Lemmas.CodeCashFlow
 /-!
 # C04 — Cash flow, NPV, IRR, VIR, MOIC and payback are mutually consistent
 
@@ -96,5 +97,47 @@ theorem irr_unique (cf : List Rat) (m : Nat) (hm : 1 ≤ m) (hc : ConvFrom m 0 c
 example : ConvFrom 2 0 [-10, -5, 6, 6, 6] ∧ HasReturnFrom 2 0 [-10, -5, 6, 6, 6] := by
   simp [ConvFrom, HasReturnFrom]
 
+
+/-! ## Tie by translation
+
+`Generated/Code.lean` holds the transcription of the *current* source of `CalculateRevenue` and `CalculateTotalRevenue`
+(`tools/py2lean.py`).  For every lifetime, every construction period ≥ 1 (the parameter's minimum; with 0 Python's `cum[-1]` would wrap)
+and all series: the first result is the list model, the second is its running sum. -/
+
+theorem code_CalculateRevenue_is_model (L cy : Nat) (hcy : 1 ≤ cy) (E P : List Rat) :
+    Code.CalculateRevenue (L : Int) (cy : Int) E P = (revenueSeries L cy E P, cumsum (revenueSeries L cy E P)) :=
+  code_revenue_eq L cy hcy E P
+
+/-- revenue of operating year `i` in the translated source: energy sold that year × that year's price; nothing in construction years -/
+theorem code_revenue_year (L cy : Nat) (hcy : 1 ≤ cy) (E P : List Rat) (j : Nat) :
+    (Code.CalculateRevenue (L : Int) (cy : Int) E P).1.getD j 0 =
+      if cy ≤ j ∧ j < cy + L then yearRevenue E P (j - cy) else 0 := by
+  rw [code_revenue_eq L cy hcy E P]; exact revenueSeries_getD L cy E P j
+
+theorem code_CalculateTotalRevenue_is_model (L cy : Nat) (hcy : 1 ≤ cy) (capex opex : Rat) (rev : List Rat) :
+    Code.CalculateTotalRevenue (L : Int) (cy : Int) capex opex rev =
+      (totalSeries L cy capex opex rev, cumsum (totalSeries L cy capex opex rev)) :=
+  code_total_revenue_eq L cy hcy capex opex rev
+
+/-- the translated `CalculateTotalRevenue` yields exactly the model's project cash flow `assemble` whenever it is handed the revenue
+the model ascribes to each operating year -/
+theorem code_cashflow_is_assemble (s : CashIn) (hcy : 1 ≤ s.cy) (rev : List Rat)
+    (hrev : ∀ i, i < s.L → rev.getD (s.cy + i) 0 = productRevenue s i + (if s.carbonOn then carbonRevenue s i else 0)) :
+    (Code.CalculateTotalRevenue (s.L : Int) (s.cy : Int) s.ccap s.coam rev).1 = assemble s := by
+  rw [code_total_revenue_eq s.L s.cy hcy]
+  simp only [totalSeries, assemble]
+  congr 1
+  apply List.map_congr_left
+  intro i hi
+  simp only [operatingCash, hrev i (List.mem_range.mp hi)]
+
+/-- and its cumulative series is the running sum of that cash flow -/
+theorem code_cumulative_is_running_sum (L cy : Nat) (hcy : 1 ≤ cy) (capex opex : Rat) (rev : List Rat) :
+    (Code.CalculateTotalRevenue (L : Int) (cy : Int) capex opex rev).2 =
+      cumsum (Code.CalculateTotalRevenue (L : Int) (cy : Int) capex opex rev).1 := by
+  rw [code_total_revenue_eq L cy hcy]
+
+example : Code.CalculateTotalRevenue 3 2 10 1 [0, 0, 4, 4, 4] = ([-5, -5, 3, 3, 3], [-5, -10, -7, -4, -1]) := by decide +kernel
+example : Code.CalculateRevenue 2 1 [1000000, 2000000] [1/2, 1/4] = ([0, 1/2, 1/2], [0, 1/2, 1]) := by decide +kernel
 
 end GeoVerif.C04
